@@ -163,6 +163,12 @@ impl Certs {
     }
 }
 
+/// tables of more rows than this travel as the list of their non-empty rows: [[row, [ranks]], ...]
+const SPARSE_ROWS: usize = 300_000;
+fn sparse_rows(off: &[usize], flat: &[i64]) -> Vec<Value> {
+    (0..off.len() - 1).filter(|r| off[*r] < off[r + 1]).map(|r| json!([r, &flat[off[r]..off[r + 1]]])).collect()
+}
+
 fn off_flat(rows: &Rows, key: &str, certs: &Certs) -> (Vec<usize>, Vec<i64>) {
     let mut off = vec![0usize];
     let mut flat = vec![];
@@ -303,7 +309,16 @@ fn gen_table(spec: &Value, seed: u64) -> Table {
         let mut rng = StdRng::seed_from_u64(seed ^ ((ci as u64 + 1) * 0x9E37_79B9));
         let kind = c["kind"].as_str().unwrap();
         let pattern = c["pattern"].as_str().unwrap_or("small");
-        let counts = row_counts(c["card"].as_str().unwrap_or("full"), c["present"].as_str().unwrap_or("rand"), c["density"].as_u64().unwrap_or(500), c["block"].as_u64().unwrap_or(0) as usize, n, &mut rng);
+        let mut counts = row_counts(c["card"].as_str().unwrap_or("full"), c["present"].as_str().unwrap_or("rand"), c["density"].as_u64().unwrap_or(500), c["block"].as_u64().unwrap_or(0) as usize, n, &mut rng);
+        if let Some(rows) = c.get("rows").and_then(|x| x.as_array()) {
+            // the rows holding values are given explicitly (huge sparse tables)
+            counts = vec![0; n];
+            for (i, r) in rows.iter().filter_map(|x| x.as_u64()).enumerate() {
+                if (r as usize) < n {
+                    counts[r as usize] = if c["card"].as_str() == Some("multi") { 1 + i % 3 } else { 1 };
+                }
+            }
+        }
         let mut k = 0usize;
         let rows: Rows = counts
             .iter()
@@ -399,6 +414,15 @@ fn read_typed<T: Copy + PartialOrd + Send + Sync + std::fmt::Debug + 'static>(
             }
         }
     }
+    if n as usize > SPARSE_ROWS {
+        // the rows with a value as the optional / multivalued index enumerates them (select)
+        let non_null: Option<Vec<u32>> = match &col.index {
+            tantivy_columnar::ColumnIndex::Optional(oi) => Some(oi.iter_non_null_docs().collect()),
+            _ => None,
+        };
+        return json!({"key":key,"type":ty,"card":card_str(col.get_cardinality()),"nrows":n,"rows":sparse_rows(&off, &flat),"first_ok":firsts_ok,
+           "min_below":certs.below(key, &mn),"max_upto":certs.upto(key, &mx),"ranges":ranges,"non_null":non_null});
+    }
     json!({"key":key,"type":ty,"card":card_str(col.get_cardinality()),"nrows":n,"off":off,"flat":flat,"first_ok":firsts_ok,
            "min_below":certs.below(key, &mn),"max_upto":certs.upto(key, &mx),"ranges":ranges})
 }
@@ -423,6 +447,10 @@ fn read_bytes_col(col: &BytesColumn, key: &str, is_str: bool, certs: &Certs, unk
     for d in 0..n {
         ords.extend(col.term_ords(d));
         off.push(ords.len());
+    }
+    if n as usize > SPARSE_ROWS {
+        let flat: Vec<i64> = ords.iter().map(|o| dict.get(*o as usize).copied().unwrap_or(-3)).collect();
+        return json!({"key":key,"type":if is_str {"str"} else {"bytes"},"card":card_str(col.ords().get_cardinality()),"nrows":n,"rows":sparse_rows(&off, &flat),"dict":dict});
     }
     json!({"key":key,"type":if is_str {"str"} else {"bytes"},"card":card_str(col.ords().get_cardinality()),"nrows":n,"off":off,"ords":ords,"dict":dict})
 }
@@ -511,10 +539,14 @@ fn emit_tables(tracer: &Tracer, case: &Value, tables: &[Table], certs: &Certs, p
                 let mut classes: Vec<&str> = rows.iter().flatten().filter(|v| cat(v) == "num").map(class).collect();
                 classes.sort();
                 classes.dedup();
-                json!({"key":k,"off":off,"flat":flat,"classes":classes})
+                if t.nrows > SPARSE_ROWS {
+                    json!({"key":k,"rows":sparse_rows(&off, &flat),"classes":classes})
+                } else {
+                    json!({"key":k,"off":off,"flat":flat,"classes":classes})
+                }
             })
             .collect();
-        tracer.emit(json!({"ev":"table","t":ti + 1,"nrows":t.nrows,"cols":cols}));
+        tracer.emit(json!({"ev":"table","t":ti + 1,"nrows":t.nrows,"cols":cols,"sparse":if t.nrows > SPARSE_ROWS { json!(true) } else { Value::Null }}));
     }
 }
 
@@ -561,7 +593,7 @@ fn run_columnar(tracer: &Tracer, case: &Value) {
         };
         let r = ColumnarReader::open(buf).expect("open columnar");
         let (cols, unknown) = read_columnar(&r, &certs, &mut rng);
-        tracer.emit(json!({"ev":"read","t":ti + 1,"nrows":r.num_docs(),"cols":cols,"unknown":unknown}));
+        tracer.emit(json!({"ev":"read","t":ti + 1,"nrows":r.num_docs(),"cols":cols,"unknown":unknown,"sparse":if t.nrows > SPARSE_ROWS { json!(true) } else { Value::Null }}));
         readers.push(r);
     }
     let m = &case["merge"];
@@ -621,8 +653,13 @@ fn run_columnar(tracer: &Tracer, case: &Value) {
     }
     let r = ColumnarReader::open(out).expect("open merged");
     let (cols, unknown) = read_columnar(&r, &certs, &mut rng);
-    let rows: Vec<Value> = map.iter().map(|&(t, r)| json!([t + 1, r])).collect();
-    tracer.emit(json!({"ev":"read","t":0,"merge":order,"nrows":r.num_docs(),"rows":rows,"cols":cols,"unknown":unknown}));
+    if map.len() > SPARSE_ROWS && order == "stack" {
+        let stack: Vec<usize> = (1..=tables.len()).collect();
+        tracer.emit(json!({"ev":"read","t":0,"merge":order,"nrows":r.num_docs(),"sparse":true,"stack":stack,"cols":cols,"unknown":unknown}));
+    } else {
+        let rows: Vec<Value> = map.iter().map(|&(t, r)| json!([t + 1, r])).collect();
+        tracer.emit(json!({"ev":"read","t":0,"merge":order,"nrows":r.num_docs(),"rows":rows,"cols":cols,"unknown":unknown}));
+    }
     tracer.emit(json!({"ev":"end"}));
 }
 
